@@ -21,7 +21,7 @@ func init() {
 		Explanation: "C10.lang: L(roman.pattern) equals the reference language built from the statement (any number of M; per position five? one{0,4} | one five | one ten; case-insensitive), decided on DFAs with a shortest witness on difference. " +
 			"C10.same: Valid and DefaultParser share checkInputLength and match the same pattern; after a successful match the parser has no error return. " +
 			"C10.case: the set of byte constants against which raw input bytes are compared in the value function (propagated through the groups table and ±lowerShift) is closed under ASCII case swap and contained in the regexp alphabet (or the input is case-normalised first). " +
-			"C10.groups: DefaultParser evaluated abstractly (non-empty input within the limit, the match returning five opaque captures, the groups table resolved to its rows, the value function uninterpreted): the result is len(capture 1) × 1000 + value(capture 2; 100, D, M) + value(capture 3; 10, L, C) + value(capture 4; 1, V, X), each term once, in any order of summation. " +
+			"C10.groups: DefaultParser evaluated abstractly (non-empty input within the limit, the match returning five opaque captures, the groups table resolved to its rows, the value function uninterpreted): the result is len(capture 1) × 1000 + value(capture 2; 100, D, M) + value(capture 3; 10, L, C) + value(capture 4; 1, V, X), each term once, in any order of summation; every sum and product on the way to the result is 64 bits wide on the analysed target (int is 32 bits under GOARCH=386: the thorough tier's second pass). " +
 			"C10.value: the value function is extracted as a decision table over (length, first two bytes vs five/ten symbol in either case); that table is evaluated inside the checker on every word of each capture group's finite language against an independent roman evaluator. C10.empty, S-ERRZERO, S-WRAP, typed errors, limit strictness for package roman.",
 		NotDecided:  []string{"uint64 overflow of len(capture 1) × 1000 (needs > 1.8e16 M, beyond any input limit)"},
 		Assumptions: []string{"regexp/syntax compiles the pattern to the automaton regexp executes"},
@@ -550,6 +550,66 @@ func ruleRomanSum(e *Env, rule string) {
 	site := flow.FnName(dp)
 	pos := e.Pos(dp)
 	pg := e.F("roman", "parseGroup")
+	// the arithmetic of the sum is done in 64 bits: with the input limit raised or disabled the thousands alone
+	// (len × 1000) exceed 32 bits from 2 147 484 letters on, and int/uint are 32 bits wide on 32-bit targets
+	{
+		narrow := ""
+		n := 0
+		// backward slice of the returned value: through conversions, merges, sums and products, and into the results
+		// of the functions of the module that contribute a term
+		seen := map[ssa.Value]bool{}
+		var walk func(v ssa.Value, depth int)
+		walk = func(v ssa.Value, depth int) {
+			if v == nil || seen[v] || depth > 40 {
+				return
+			}
+			seen[v] = true
+			switch x := v.(type) {
+			case *ssa.Convert:
+				walk(x.X, depth+1)
+			case *ssa.ChangeType:
+				walk(x.X, depth+1)
+			case *ssa.MultiConvert:
+				walk(x.X, depth+1)
+			case *ssa.Phi:
+				for _, ed := range x.Edges {
+					walk(ed, depth+1)
+				}
+			case *ssa.BinOp:
+				if x.Op == token.MUL || x.Op == token.ADD {
+					if w, ok := pred.IntWidth(x.Type()); ok {
+						n++
+						if w < 64 && narrow == "" {
+							narrow = fmt.Sprintf("%s is computed in %s, %d bits wide on this target (%s)", x.String(), x.Type(), w, e.posOf(x))
+						}
+					}
+				}
+				walk(x.X, depth+1)
+				walk(x.Y, depth+1)
+			case *ssa.Call:
+				if callee := e.C.StaticCallee(&x.Call); callee != nil && flow.InRepo(callee) {
+					for _, r := range flow.Returns(flow.Origin(callee)) {
+						if rv := flow.ReturnValues(r); len(rv) > 0 {
+							walk(rv[0], depth+1)
+						}
+					}
+				}
+			}
+		}
+		for _, r := range flow.Returns(dp) {
+			if rv := flow.ReturnValues(r); len(rv) > 0 {
+				walk(rv[0], 0)
+			}
+		}
+		switch {
+		case n == 0:
+			e.S.Unk(rule, site, "width", "no sum or product found in the parser and its value function", pos)
+		case narrow != "":
+			e.S.Bad(rule, site, "width", "the value is not summed in 64 bits: "+narrow+"; a numeral of 2 147 484 or more M (limit raised or disabled) wraps", pos, "2147484 × M on a 32-bit target")
+		default:
+			e.S.Ok(rule, site, "width", fmt.Sprintf("all %d sums and products of the value are 64 bits wide on this target", n), pos)
+		}
+	}
 	var perm []int
 	if pg != nil {
 		perm = e.ParamPerm("roman", "parseGroup", pg)
